@@ -416,3 +416,195 @@ Proof.
   destruct (file_roundtrip_lemma items2 tail2 W2 P2 T2) as (d2 & s2 & E2 & V2).
   exists d1, s1, d2, s2. repeat split; auto. congruence.
 Qed.
+
+(* ==== the full denotation: person fields and the reported problems ==== *)
+Lemma add_errs_app s a b : add_errs s (a ++ b) = add_errs (add_errs s a) b.
+Proof. unfold add_errs. apply fold_left_app. Qed.
+Lemma add_errs_errs s l : p_errs (add_errs s l) = p_errs s ++ l.
+Proof.
+  revert s. induction l as [|e l IH]; intros s; [cbn; rewrite app_nil_r; reflexivity|].
+  unfold add_errs in *. cbn [fold_left]. rewrite IH. cbn. rewrite <- app_assoc. reflexivity.
+Qed.
+
+(* the persons a list of name strings denotes (each name through Person, C04) and the
+   InvalidNameString problems; None: a name on which Person raises a BibTeXError *)
+Fixpoint denote_persons (names : list str) (acc : list person) : option (list person * list N) :=
+  match names with
+  | [] => Some (acc, [])
+  | n :: r =>
+    match person_of_string n with
+    | Ok (p, rep) =>
+      match denote_persons r (acc ++ [p]) with
+      | Some (pl, e) => Some (pl, (if rep then [E_NAME] else []) ++ e)
+      | None => None
+      end
+    | _ => None
+    end
+  end.
+
+Lemma persons_denote : forall names acc pl e s, denote_persons names acc = Some (pl, e) ->
+  persons_of Capture names acc s = Ret pl (add_errs s (map data_err e)).
+Proof.
+  induction names as [|n r IH]; intros acc pl e s H; cbn [denote_persons persons_of] in *.
+  - injection H as <- <-. reflexivity.
+  - destruct (person_of_string n) as [[p rep]|? ?| |]; try discriminate.
+    destruct (denote_persons r (acc ++ [p])) as [[pl' e']|] eqn:E; [|discriminate]. injection H as <- <-.
+    destruct rep; cbn [handle_error obind app map].
+    + rewrite (IH _ _ _ (add_err s (data_err E_NAME)) E). reflexivity.
+    + rewrite (IH _ _ _ s E). reflexivity.
+Qed.
+
+(* what the fields of an entry denote: the first field of each name (ignoring case) in source
+   order; a field other than author / editor denotes its normalised concatenation; an author /
+   editor field denotes the persons of the names split_name_list (C12 / C04) finds in it;
+   problems: one duplicate-field report per later duplicate, one bad-name report per name
+   with too many commas *)
+Fixpoint denote_fields (fields : list (str * list str)) (seen : list str)
+         (fs : list (str * str)) (ps : list (str * list person))
+  : option (list (str * str) * list (str * list person) * list N) :=
+  match fields with
+  | [] => Some (fs, ps, [])
+  | (fname, parts) :: rest =>
+    let lname := lower fname in
+    if existsb (str_eqb lname) seen then
+      match denote_fields rest seen fs ps with
+      | Some (f', p', e) => Some (f', p', E_DUPFIELD :: e)
+      | None => None
+      end
+    else
+      let value := normalize_whitespace (concat parts) in
+      if is_person_field lname then
+        match split_name_list value with
+        | Ok names =>
+          match denote_persons names [] with
+          | Some (pl, e1) =>
+            match denote_fields rest (seen ++ [lname]) fs (match pl with [] => ps | _ => ps ++ [(fname, pl)] end) with
+            | Some (f', p', e) => Some (f', p', e1 ++ e)
+            | None => None
+            end
+          | None => None
+          end
+        | _ => None
+        end
+      else denote_fields rest (seen ++ [lname]) (fs ++ [(fname, value)]) ps
+  end.
+
+Lemma fields_denote : forall fields seen fs ps f' p' e s, denote_fields fields seen fs ps = Some (f', p', e) ->
+  process_fields Capture fields seen fs ps s = Ret (f', p') (add_errs s (map data_err e)).
+Proof.
+  induction fields as [|[fname parts] rest IH]; intros seen fs ps f' p' e s H; cbn [denote_fields process_fields] in *.
+  - injection H as <- <- <-. reflexivity.
+  - destruct (existsb (str_eqb (lower fname)) seen).
+    + destruct (denote_fields rest seen fs ps) as [[[f2 p2] e2]|] eqn:E; [|discriminate]. injection H as <- <- <-.
+      cbn [handle_error obind map]. rewrite (IH _ _ _ _ _ _ (add_err s (data_err E_DUPFIELD)) E). reflexivity.
+    + destruct (is_person_field (lower fname)); [|apply IH; exact H].
+      destruct (split_name_list (normalize_whitespace (concat parts))) as [names|? ?| |]; try discriminate.
+      destruct (denote_persons names []) as [[pl e1]|] eqn:Ep; [|discriminate].
+      destruct (denote_fields rest (seen ++ [lower fname]) fs _) as [[[f2 p2] e2]|] eqn:E; [|discriminate]. injection H as <- <- <-.
+      rewrite (persons_denote _ _ _ _ s Ep). cbn [obind].
+      rewrite (IH _ _ _ _ _ _ _ E). rewrite map_app, add_errs_app. reflexivity.
+Qed.
+
+Definition denote_cmd2 (c : cmd) (v : dbview) : option (dbview * list N) :=
+  match c with
+  | CString _ _ _ => Some (v, [])
+  | CPreamble _ vals => Some ((fst v, snd v ++ [normalize_whitespace (concat vals)]), [])
+  | CEntry typ (Some key) fields =>
+    match denote_fields fields [] [] [] with
+    | Some (fs, ps, e) =>
+      if existsb (fun x => str_eqb (lower (ev_key x)) (lower key)) (fst v) then Some (v, e ++ [E_REPEATED])
+      else Some ((fst v ++ [(key, lower typ, typ, fs, ps)], snd v), e)
+    | None => None
+    end
+  | CEntry _ None _ => None
+  end.
+
+Lemma process_denotes2 c d s v' e : denote_cmd2 c (view d) = Some (v', e) ->
+  exists d', process Capture c d s = Ret d' (add_errs s (map data_err e)) /\ view d' = v'.
+Proof.
+  destruct c as [n f v|n v|typ [key|] fields]; cbn [process denote_cmd2]; intros H; try discriminate.
+  - injection H as <- <-. exists d. auto.
+  - injection H as <- <-. unfold process_preamble. eexists. split; [reflexivity|]. unfold view. cbn. rewrite map_app. reflexivity.
+  - destruct (denote_fields fields [] [] []) as [[[fs ps] e1]|] eqn:E; [|discriminate].
+    unfold process_entry. rewrite (fields_denote _ _ _ _ _ _ _ s E). cbn [obind fst snd].
+    unfold add_entry. unfold view in H. cbn [fst snd] in H. rewrite existsb_map in H. cbn [ev_key entry_view fst] in H.
+    destruct (existsb _ (db_entries d)).
+    + injection H as <- <-. cbn [handle_error obind]. eexists. split.
+      * rewrite map_app, add_errs_app. reflexivity.
+      * reflexivity.
+    + injection H as <- <-. eexists. split; [reflexivity|]. unfold view. cbn. rewrite map_app. reflexivity.
+Qed.
+
+Fixpoint denote_items2 (macros : list (str * str)) (items : list (str * sitem)) (v : dbview) : option (dbview * list N) :=
+  match items with
+  | [] => Some (v, [])
+  | (_, i) :: r =>
+    match (match item_cmd macros i with Some c => denote_cmd2 c v | None => Some (v, []) end) with
+    | Some (v1, e1) =>
+      match denote_items2 (item_macros macros i) r v1 with
+      | Some (v2, e2) => Some (v2, e1 ++ e2)
+      | None => None
+      end
+    | None => None
+    end
+  end.
+
+Lemma file_loop3 : forall items fuel d st tail v' e,
+  (length items < fuel)%nat -> wf_file (p_macros st) items -> no_at tail ->
+  sc_rest (p_sc st) = file_text2 items tail ->
+  denote_items2 (p_macros st) items (view d) = Some (v', e) ->
+  exists d' st', bib_loop process fuel Capture d st = Ret d' st' /\ view d' = v' /\ p_errs st' = p_errs st ++ map data_err e.
+Proof.
+  induction items as [|[junk i] r IH]; intros fuel d st tail v' e Hf Hwf Htail Hr Hd; (destruct fuel as [|fu]; [cbn in Hf; lia|]); cbn [bib_loop].
+  - cbn [file_text2] in Hr. unfold skip_to. rewrite Hr, (find_first_all_false _ tail Htail).
+    cbn in Hd. injection Hd as <- <-. eexists. eexists. split; [reflexivity|]. cbn. rewrite app_nil_r. auto.
+  - destruct Hwf as (Hj & Hi & Hwr).
+    cbn [file_text2] in Hr. unfold skip_to. rewrite Hr, (find_first_app _ junk c_at _ Hj eq_refl).
+    match goal with |- context [parse_command Capture ?s1] =>
+      destruct (item_reads Capture s1 i (file_text2 r tail) Hi eq_refl) as (st2 & E & Hr2 & Her & Hma)
+    end.
+    rewrite E. cbn [p_macros p_errs set_cstart set_sc] in *. cbn [denote_items2] in Hd.
+    destruct (item_cmd (p_macros st) i) as [c|] eqn:Ec.
+    + destruct (denote_cmd2 c (view d)) as [[v1 e1]|] eqn:Ed; [|discriminate].
+      destruct (denote_items2 (item_macros (p_macros st) i) r v1) as [[v2 e2]|] eqn:Ed2; [|discriminate]. injection Hd as <- <-.
+      destruct (process_denotes2 c d st2 v1 e1 Ed) as (d2 & Ep & Hv).
+      rewrite Ep. cbn [obind].
+      destruct (add_errs_core st2 (map data_err e1)) as [Hc1 Hc2].
+      destruct (IH fu d2 (add_errs st2 (map data_err e1)) tail v2 e2 ltac:(cbn [length] in *; lia)) as (d' & st' & E' & Hv' & He').
+      * rewrite Hc2, Hma. exact Hwr.
+      * exact Htail.
+      * rewrite Hc1. exact Hr2.
+      * rewrite Hc2, Hma, Hv. exact Ed2.
+      * exists d', st'. split; [exact E'|]. split; [exact Hv'|].
+        rewrite He', add_errs_errs, Her, map_app, app_assoc. reflexivity.
+    + destruct (denote_items2 (item_macros (p_macros st) i) r (view d)) as [[v2 e2]|] eqn:Ed2; [|discriminate]. injection Hd as <- <-.
+      destruct (IH fu d st2 tail v2 e2 ltac:(cbn [length] in *; lia)) as (d' & st' & E' & Hv' & He').
+      * rewrite Hma. exact Hwr.
+      * exact Htail.
+      * exact Hr2.
+      * rewrite Hma. exact Ed2.
+      * exists d', st'. split; [exact E'|]. split; [exact Hv'|]. rewrite He', Her. reflexivity.
+Qed.
+
+(* FILE ROUND TRIP with persons and reported problems *)
+Lemma file_roundtrip_full items tail v e :
+  wf_file month_macros items -> no_at tail -> denote_items2 month_macros items ([], []) = Some (v, e) ->
+  exists d s, parse_bib Capture (file_text2 items tail) = Ret d s /\ view d = v /\ p_errs s = map data_err e.
+Proof.
+  intros Hwf Htail Hd. unfold parse_bib.
+  destruct (file_loop3 items (S (length (file_text2 items tail))) db_init (pst_init (file_text2 items tail) month_macros) tail v e) as (d & s & E & Hv & He); auto.
+  - pose proof (file_text2_len items tail). lia.
+  - exists d, s. auto.
+Qed.
+
+Lemma surface_independence_full items1 tail1 items2 tail2 v e :
+  wf_file month_macros items1 -> no_at tail1 -> wf_file month_macros items2 -> no_at tail2 ->
+  denote_items2 month_macros items1 ([], []) = Some (v, e) -> denote_items2 month_macros items2 ([], []) = Some (v, e) ->
+  exists d1 s1 d2 s2, parse_bib Capture (file_text2 items1 tail1) = Ret d1 s1 /\
+                      parse_bib Capture (file_text2 items2 tail2) = Ret d2 s2 /\ view d1 = view d2 /\ p_errs s1 = p_errs s2.
+Proof.
+  intros W1 T1 W2 T2 D1 D2.
+  destruct (file_roundtrip_full items1 tail1 v e W1 T1 D1) as (d1 & s1 & E1 & V1 & R1).
+  destruct (file_roundtrip_full items2 tail2 v e W2 T2 D2) as (d2 & s2 & E2 & V2 & R2).
+  exists d1, s1, d2, s2. repeat split; auto; congruence.
+Qed.
